@@ -78,7 +78,9 @@ def run(run):
              "the file must be what the EXPORT side prescribes - write-delimiter, write-encoding, without-header, line break, enclose-all, pretty print - "
              "with every import-side twin (delimiter, encoding, no-header, import-format) set differently; byte comparison, then re-import), JSON / "
              "JSON Lines files whose first line break lies at the buffer boundaries of the readers (first record of 2047..12288 bytes, CRLF / LF / CR; "
-             "detected line break = model (op c02.jlb), dialect kept through UPDATE + COMMIT), the commit histories (a COMMIT refused by an unspellable cell after "
+             "detected line break = model (op c02.jlb), dialect kept through UPDATE + COMMIT), the REAL line-break detector (hook query.VerifJsonLineBreak) on random byte strings weighted towards "
+             "quotation marks, backslashes, CR, LF, CRLF: the whole text = model Json.firstBreak (op c02.jlb), and every two-way cut, byte-by-byte reads with "
+             "empty reads, cuts after every CR / backslash / quotation mark and random cuts = the single read (law json_line_break_chunk_dependent), the commit histories (a COMMIT refused by an unspellable cell after "
              "more than 4 KiB of records, repair + DELETE, COMMIT again: committed bytes = those of a control run without the refused attempt; LTSV, "
              "fixed-length, CSV/TSV in Shift_JIS), then generated (incl. a share of refusal injections at random positions): "
              "tables of 0-50 rows x 1-6 columns, plus a size band of 280-700 records x 2-3 short columns around the loaders' prepared capacity "
